@@ -70,6 +70,12 @@ func RandomPELayout(r *rand.Rand, i int) PELayout {
 	if r.Intn(2) == 0 {
 		l.Trailing = 1 + r.Intn(64)
 	}
+	switch i % 7 {
+	case 3:
+		l.NumRva = 5 // the certificate-table entry is the last directory
+	case 5:
+		l.NumRva = 6
+	}
 	if i%13 == 6 {
 		// a long tail behind the last section (stub + appended payload): around 64 KiB and beyond
 		l.Trailing = []int{65529, 65536, 65537, 70000, 131072, 140001}[(i/13)%6]
